@@ -16,7 +16,7 @@ from props.C05 import make_pva, ST, NAMES, phi, lam, h, VN, VE, VD, r, p, hd
 
 MANIFEST = dict(
     category="proof",
-    technique="forward residual of the real system_matrices (symbolic execution) against the variational equation of the exact navigation ODE in the library's error coordinates; entries decided in a fraction field; declared-neglected velocity-dependent coefficients bounded by interval arithmetic; propagate_errors loop body verified against letter matrices; Every claim is also checked for call history: the real code is run twice in the same symbolic world (primed inputs first; same captured objects and module state) and the second result must still meet the contract on every path a concrete witness input takes; value-dependent branches inside a claim are explored path by path. The frame obligations (C19's analysis) of the modules under contract are re-established under this property's name.",
+    technique="forward residual of the real system_matrices (symbolic execution) against the variational equation of the exact navigation ODE in the library's error coordinates; entries decided in a fraction field; declared-neglected velocity-dependent coefficients bounded by interval arithmetic; propagate_errors loop body verified against letter matrices; Every claim is also checked for call history: the real code is run twice in the same symbolic world (primed inputs first; same captured objects and module state) and the second result must still meet the contract on every path a concrete witness input takes; value-dependent branches inside a claim are explored path by path. The frame obligations (C19's analysis) of the modules under contract are re-established under this property's name.; Bounded stand-ins shared by all properties (labelled bounded, never counted as proved): the argument-form battery of the modules under contract (batches of 1 and 1200 rows, integer-typed values, labels / columns in other orders, extra labels); where the frame analysis finds state that outlives a call (a cache, a memo) the frame obligation becomes a dynamic purity contract against pristine process states; names the proofs replace by scipy contracts are checked to be bound to the library's functions (else a differential test).",
     text="With the error dynamics x' = F x + B_g dw + B_a df produced by the real code substituted, the displaced state ins(eps) = Psi(true, eps x) is required to satisfy the exact navigation equations driven by (w + eps dw, f + eps df) to first order in eps. The residual is linear, r = D_x x + D_g dw + D_a df, and for all latitudes, altitudes, velocities, attitudes and ellipsoid constants it is proved that D_g = D_a = 0, that every entry of D_x outside the four blocks [DR,DR],[DV,DR],[DV,PHI],[PHI,DR] is 0, that at rest D_x is exactly the single declared-neglected north gradient of normal gravity, and that the velocity-dependent coefficients in the four blocks are bounded by the declared sizes on |lat|<=80 deg, 0..20 km. Same for the 7-state no-altitude model against the altitude-frozen ODE. The loop body of propagate_errors is proved to be the trapezoid step of exactly these matrices (irregular stamps), started at T_io e0 and output through T_oi. By C01 the integrator is the flow of the same ODE to first order, so this is the linearisation of actual strapdown error growth (Taylor/Groenwall assumed).",
     note="A1-A6; C01 (integrator consistent with spec ODE); error coordinates true = correct_pva(ins, x) as proved in C05; Taylor/Groenwall: first-order agreement of vector fields gives first-order agreement of flows; scipy from_euler contract; bounds of neglected terms use R >= 6.3e6 m, |tan lat| <= tan 80 deg.",
 )
